@@ -1168,7 +1168,7 @@ def run(ctx):
         return ([canon(r) for r in res_], term_)
     from common import env_sweep
     env_sweep(ctx, "read_archive", sweep_fn, sweep,
-              describe=lambda c: {"format": c[0], "archive": c[1], "archive_path": c[2]})
+              describe=lambda c: f"{c[0]} archive of {len(c[1])} bytes read as {c[2]!r} (sha1 {__import__('hashlib').sha1(c[1]).hexdigest()[:12]})")
     ctx.extra["env_sweep_sample"] = {"cases": len(sweep), "by_format": {f: sum(1 for c in sweep if c[0] == f) for f in ("7z", "zip", "tar")}}
 
     # ================================================================= detection
